@@ -8,6 +8,7 @@ import RsslVerif.Lemmas.Dec2BinMono
 import RsslVerif.Lemmas.LitFormatEmit
 import RsslVerif.Lemmas.LexerFiles
 import RsslVerif.Lemmas.LexNumeral
+import RsslVerif.Lemmas.LexNumeralInt
 import RsslVerif.Gen.LitFormatTables
 /-!
 # C10 — lexing is lossless and numeric literals are exact
@@ -420,6 +421,31 @@ example : Boundary [59] ∧ Boundary [] ∧ Boundary [32, 120] ∧ ¬ Boundary [
   · intro b r h; cases h
   · intro b r h; cases h; decide
   · intro h; have := (h 120 [] rfl).1; revert this; decide
+
+/-- **numeral_int_is_one_token_partial**: a decimal integer numeral of the C grammar (`0`, or a non-zero digit followed by
+any digits) with any of the 13 spellings of the suffix (none, `u U l L`, `ul uL Ul UL`, `lu lU Lu LU`:
+`IntSuffixSpelling`), followed by a text that does not continue it (`IntBoundary`: the end, or a byte that is neither a
+letter, digit, `_` nor `.`), is read by `token_intermediate` as ONE token consuming exactly the numeral: the integer literal
+of the kind the suffix names, holding the positional value of the digits — whenever that value fits the kind
+(`mkIntToken?`; a value that does not fit is the diagnostic of `int_overflow_rejected`). `literal_float` declines it
+(`OtherTokenBytes`), `literal_int` takes the decimal route.
+*Partial*: the octal (`0` octal-digits) and hexadecimal (`0x` hex-digits) numerals are not covered by this statement
+(their value and rejection are `int_value_exact` / `int_overflow_rejected` on the maximal digit run; that the run and the
+suffix are the whole numeral is checked by the `C10.num` stream only). -/
+theorem numeral_int_is_one_token_partial (d : Nat) (ds : List Nat) (hlt : ∀ x ∈ d :: ds, x < 10)
+    (hlead : d ≠ 0 ∨ ds = []) (sfx : IntSuffixSpelling) (tok : Token)
+    (hn : Dec2Bin.ofDigits 10 (d :: ds) < 2 ^ 64)
+    (hk : mkIntToken? (Dec2Bin.ofDigits 10 (d :: ds)) sfx.ty = some tok) (rest : Bytes) (hb : IntBoundary rest)
+    (inc : Bool) :
+    tokenIntermediate ((d :: ds).map digitByte ++ (sfx.bytes ++ rest)) inc = .ok (rest, tok) :=
+  decimalInt_one_token d ds hlt hlead sfx tok hn hk rest hb inc
+
+/-- non-vacuity: `42UL`, `4294967295U`, `0l` -/
+example : ([4, 2].map digitByte ++ (IntSuffixSpelling.ul true true).bytes) = [52, 50, 85, 76] ∧
+    mkIntToken? (Dec2Bin.ofDigits 10 [4, 2]) (IntSuffixSpelling.ul true true).ty = some (.litIntU64 42) := by decide
+example : mkIntToken? (Dec2Bin.ofDigits 10 [4, 2, 9, 4, 9, 6, 7, 2, 9, 5]) (IntSuffixSpelling.u true).ty =
+    some (.litIntU32 4294967295) := by decide
+example : mkIntToken? (Dec2Bin.ofDigits 10 [0]) (IntSuffixSpelling.l false).ty = some (.litIntS64 0) := by decide
 
 /-! ## Part 4 — the rounding reference itself (`Spec/Dec2Bin.lean`) against the mathematical statement -/
 
